@@ -229,6 +229,11 @@ def _ground(case, rng, shape, base=None, fill=None):
         TT = gen.mk_ttensor(ttb, core, fm, sparse_core=bool(rng.integers(0, 2)))
         A = denote(TT)
         H["ttensor"] = TT
+        if rng.random() < 0.5:
+            # the same Tucker tensor with its factor matrices held as SciPy sparse matrices (the constructor accepts them)
+            from scipy import sparse as sp
+
+            H["ttensor(sparse factors)"] = ttb.ttensor(TT.core.copy(), [sp.coo_matrix(np.asarray(f, dtype=float)) for f in fm])
     elif base == "sum":
         w, fm = gen.rand_ktensor_parts(rng, shape, 2)
         K = gen.mk_ktensor(ttb, w, fm)
@@ -352,11 +357,11 @@ def _w_ttm(case, ctx, rng, shape, N):
              all_modes=(len(sel) == N), single=case["single"], transpose=tr)
     want = refops.ttm(A, [per_mode[m] for m in sorted(sel)], sorted(sel), transpose=tr)
     scale = float(np.max(np.abs(A)) * np.prod([np.max(np.abs(per_mode[m])) * shape[m] for m in sel]) + 1e-300)
-    for name in ("tensor", "sptensor", "ttensor"):
+    for name in ("tensor", "sptensor", "ttensor", "ttensor(sparse factors)"):
         if name not in H:
             continue
         X = H[name]
-        op = f"{name}.ttm"
+        op = f"{name.split('(')[0]}.ttm"
         if case["single"]:
             got, ok = _try(ctx, op, X.ttm, per_mode[sel[0]].copy(), **_desig_kw(case), transpose=tr, _feat={"holder": name})
         else:
